@@ -25,7 +25,7 @@ import (
 	"github.com/dolthub/dolt/go/zzverif/vsql"
 )
 
-const c25Rule = "SQL programs of 10-28 statements drawn by rapid over one table (keyed with 1-2 PK columns, or keyless) with 1-4 initial indexes from {non-unique, unique, multi-column, prefix on TEXT/VARCHAR, collated VARCHAR (0900_bin / 0900_ai_ci / general_ci)}: INSERT (plain/IGNORE/REPLACE/ON DUPLICATE KEY UPDATE), UPDATE (incl. of PK and of indexed columns, LIMIT), DELETE, CREATE/DROP/RENAME INDEX, ADD/DROP/MODIFY/RENAME COLUMN, DROP/ADD PRIMARY KEY, dolt_commit/add/checkout -b/checkout/merge (+ conflicts resolve ours/theirs/manual/abort)/cherry_pick/revert/reset hard|soft/stash push|pop; statements may fail. After every statement the working root (after version-control statements also STAGED), and at the end every commit of every branch and every branch's working set, are checked: for each secondary index the multiset of (index columns, PK) recomputed from the full-scan rows equals (a) the FORCE INDEX full-range scan (plan verified by EXPLAIN PLAN) and index point lookups, and (b) the stored index map decoded in process. Non-trivial: the program contains a successful UPDATE that changed rows and sets an indexed column, a successful schema change of the indexed table, and a successful merge/cherry-pick/revert that changed the table; distinct by the statement list."
+const c25Rule = "SQL programs of 10-28 statements drawn by rapid over one table (keyed with 1-2 PK columns, or keyless) with 1-4 initial indexes from {non-unique, unique, multi-column, prefix on TEXT/VARCHAR, collated VARCHAR (0900_bin / 0900_ai_ci / general_ci)}: INSERT (plain/IGNORE/REPLACE/ON DUPLICATE KEY UPDATE), UPDATE (incl. of PK and of indexed columns, LIMIT), DELETE, CREATE/DROP/RENAME INDEX, ADD/DROP/MODIFY/RENAME COLUMN, DROP/ADD PRIMARY KEY, dolt_commit/add/checkout -b/checkout/merge (+ conflicts resolve ours/theirs/manual keep|take|delete through dolt_conflicts_t/abort; the index oracle also runs between the resolution and the commit)/cherry_pick/revert/reset hard|soft/stash push|pop; the branch and main first get 0-3 planned edits of the same base rows (modify/modify, add/add, delete/modify, modify/delete; 4 of 5 on an indexed column; keyless: divergent multiplicities of one row) so that the join leaves every kind of data conflict; statements may fail. After every statement the working root (after version-control statements also STAGED), and at the end every commit of every branch and every branch's working set, are checked: for each secondary index the multiset of (index columns, PK) recomputed from the full-scan rows equals (a) the FORCE INDEX full-range scan (plan verified by EXPLAIN PLAN) and index point lookups, and (b) the stored index map decoded in process. Non-trivial: the program contains a successful UPDATE that changed rows and sets an indexed column, a successful schema change of the indexed table, and a successful merge/cherry-pick/revert that changed the table; distinct by the statement list."
 
 const c25Finding = "C25-keyless-prefix-outofband"
 
@@ -33,6 +33,10 @@ const c25Finding = "C25-keyless-prefix-outofband"
 // REPLACE) that hits the unique index leaves the entries of the rejected row in the other
 // indexes; with two unique indexes REPLACE then panics on its own leftover entry
 const c25FindingODKU = "C25-keyless-odku-partial-index-writes"
+
+// ALTER TABLE … DROP/ADD PRIMARY KEY on a table that still has conflict or constraint-violation
+// artifacts panics when the transaction commits (the artifact map is keyed by the old primary key)
+const c25FindingPKArtifacts = "C25-pk-change-with-artifacts-panic"
 
 // a merge that rebuilds a UNIQUE index leaves out the rows whose key contains NULL
 const c25FindingUniqNull = "C25-merge-unique-rebuild-drops-null-keys"
@@ -82,8 +86,11 @@ type c25State struct {
 	// entries missing from a UNIQUE index are tolerated when their key contains NULL
 	tolerateUniqNull bool
 	mergeLike        bool
+	// finding C25-pk-change-with-artifacts-panic is listed open: no primary key change while artifacts exist
+	noPKChangeWithArtifacts bool
 
 	lastRows [][]string
+	rawStmt  string // statement of the next "raw" step
 
 	fUpdIdx, fDDL, fVC bool
 	classes            map[string]bool
@@ -326,16 +333,58 @@ func (c *c25State) afterMergeLike(label string) {
 	merging, _ := c.s.Scalar(rt, "SELECT is_merging FROM dolt_merge_status")
 	if n != "0" || nsc != "0" {
 		c.class("conflicts")
-		choice := rapid.IntRange(0, 4).Draw(rt, label+".resolve")
+		choice := rapid.SampledFrom([]string{"ours", "ours", "theirs", "theirs", "theirs", "manual_keep", "manual_take", "manual_delete", "abort"}).Draw(rt, label+".resolve")
 		if nsc != "0" {
-			choice = 4
+			choice = "abort"
 		}
+		// what kinds of conflict are being resolved (keyed tables: from the conflict table)
+		if c.sch != nil && len(c.sch.PK) > 0 {
+			pk := c.sch.PK[0]
+			if r, err := c.query(fmt.Sprintf("SELECT (base_%s IS NULL), (our_%s IS NULL), (their_%s IS NULL) FROM dolt_conflicts_t", pk, pk, pk)); err == nil {
+				for _, row := range r.Data {
+					switch {
+					case row[0] == "1":
+						c.class("conflict_add_add")
+					case row[1] == "1":
+						c.class("conflict_ours_deleted_theirs_modified")
+					case row[2] == "1":
+						c.class("conflict_ours_modified_theirs_deleted")
+					default:
+						c.class("conflict_modify_modify")
+					}
+				}
+			}
+		}
+		c.class("resolve_" + choice)
 		switch choice {
-		case 0:
+		case "ours":
 			_ = c.exec("CALL dolt_conflicts_resolve('--ours', 't')")
-		case 1, 2:
+		case "theirs":
 			_ = c.exec("CALL dolt_conflicts_resolve('--theirs', 't')")
-		case 3:
+		case "manual_keep":
+			_ = c.exec("DELETE FROM dolt_conflicts_t")
+		case "manual_take":
+			// take their value of one column where both sides still have the row, then mark resolved
+			if c.sch != nil && len(c.sch.PK) > 0 {
+				var cand []string
+				for _, col := range c.sch.Cols {
+					if !c.sch.isPK(col.Name) {
+						cand = append(cand, col.Name)
+					}
+				}
+				if len(cand) > 0 {
+					col := rapid.SampledFrom(cand).Draw(rt, label+".takecol")
+					pk := c.sch.PK[0]
+					_ = c.exec(fmt.Sprintf("UPDATE dolt_conflicts_t SET `our_%s` = `their_%s` WHERE `our_%s` IS NOT NULL AND `their_%s` IS NOT NULL", col, col, pk, pk))
+				}
+			}
+			_ = c.exec("DELETE FROM dolt_conflicts_t")
+		case "manual_delete":
+			// drop our version of every conflicting row, then mark resolved
+			if c.sch != nil && len(c.sch.PK) == 1 {
+				pk := c.sch.PK[0]
+				_ = c.exec(fmt.Sprintf("DELETE FROM t WHERE `%s` IN (SELECT `our_%s` FROM dolt_conflicts_t)", pk, pk))
+			}
 			_ = c.exec("DELETE FROM dolt_conflicts_t")
 		default:
 			if merging == "1" {
@@ -343,6 +392,10 @@ func (c *c25State) afterMergeLike(label string) {
 			} else {
 				_ = c.exec("CALL dolt_cherry_pick('--abort')")
 			}
+			return
+		}
+		// the resolution itself must leave every index mirroring the table, before any commit
+		if !c.validateWorking(false) {
 			return
 		}
 	}
@@ -376,6 +429,8 @@ func (c *c25State) step(i int, pool []string, kind string) bool {
 	keyless := len(c.sch.PK) == 0
 	vc := false
 	switch kind {
+	case "raw":
+		_ = c.exec(c.rawStmt)
 	case "insert":
 		n := rapid.IntRange(1, 4).Draw(rt, lb+".n")
 		var rows []string
@@ -532,6 +587,15 @@ func (c *c25State) step(i int, pool []string, kind string) bool {
 			c.fDDL = true
 		}
 	case "pktoggle":
+		if c.noPKChangeWithArtifacts {
+			nv, _ := c.s.Scalar(rt, "SELECT COALESCE(SUM(num_violations),0) FROM dolt_constraint_violations")
+			nc, _ := c.s.Scalar(rt, "SELECT COALESCE(SUM(num_conflicts),0) FROM dolt_conflicts")
+			if nv != "0" || nc != "0" {
+				c.excluded++
+				c.class("pk_change_excluded_known")
+				return true
+			}
+		}
 		var q string
 		if keyless {
 			var cand []string
@@ -636,6 +700,12 @@ func (c *c25State) step(i int, pool []string, kind string) bool {
 	if vc {
 		c.currentBranch()
 	}
+	return c.validateWorking(vc)
+}
+
+// validateWorking checks the working root (and STAGED when asked) of the current branch; false
+// when the table no longer exists.
+func (c *c25State) validateWorking(staged bool) bool {
 	c.sch = c.refreshSchema("")
 	if c.sch == nil {
 		c.class("table_gone")
@@ -646,7 +716,7 @@ func (c *c25State) step(i int, pool []string, kind string) bool {
 	c.lastRows = c.fullScan("")
 	c.validateInProc(sxRootSpec{Kind: "working", Branch: c.cur}, c.lastRows, c.sch)
 	c.validateSQL("", "WORKING")
-	if vc {
+	if staged {
 		if sch := c.refreshSchema("STAGED"); sch != nil {
 			c.validateInProc(sxRootSpec{Kind: "staged", Branch: c.cur}, c.fullScan("STAGED"), sch)
 		}
@@ -1150,7 +1220,7 @@ func (c *c25State) finalSweep() {
 
 // ---------------------------------------------------------------------------------------
 
-func c25Case(rt *rapid.T, srv *vsql.Server, admin *vsql.Session, rec *vh.Recorder, shortText, skipPrefixMB, noKeylessODKU, tolerateUniqNull bool) {
+func c25Case(rt *rapid.T, srv *vsql.Server, admin *vsql.Session, rec *vh.Recorder, shortText, skipPrefixMB, noKeylessODKU, tolerateUniqNull, noPKChangeWithArtifacts bool) {
 	db := srv.NewDBName()
 	admin.MustExec(rt, "CREATE DATABASE "+db)
 	defer admin.Exec("DROP DATABASE " + db)
@@ -1158,7 +1228,7 @@ func c25Case(rt *rapid.T, srv *vsql.Server, admin *vsql.Session, rec *vh.Recorde
 	s.MustExec(rt, "SET @@dolt_allow_commit_conflicts = 1")
 	s.MustExec(rt, "SET @@dolt_force_transaction_commit = 1")
 	c := &c25State{rt: rt, srv: srv, inproc: &sxInProc{srv: srv}, s: s, db: db, branches: []string{"main"}, cur: "main",
-		shortText: shortText, skipPrefixMB: skipPrefixMB, noKeylessODKU: noKeylessODKU, tolerateUniqNull: tolerateUniqNull, classes: map[string]bool{}, planCache: map[string]bool{}, validatedCommits: map[string]bool{}}
+		shortText: shortText, skipPrefixMB: skipPrefixMB, noKeylessODKU: noKeylessODKU, tolerateUniqNull: tolerateUniqNull, noPKChangeWithArtifacts: noPKChangeWithArtifacts, classes: map[string]bool{}, planCache: map[string]bool{}, validatedCommits: map[string]bool{}}
 	defer func() { c.s.Close() }()
 
 	// schema
@@ -1231,9 +1301,25 @@ func c25Case(rt *rapid.T, srv *vsql.Server, admin *vsql.Session, rec *vh.Recorde
 	}
 	one := func(kind string) bool { i++; return c.step(i, nil, kind) }
 	mixed := append(append([]string{}, c25EditKinds...), c25VCKinds...)
-	ok := run(rapid.IntRange(1, 5).Draw(rt, "phaseA"), c25EditKinds) && one("commit") && one("branch") &&
-		run(rapid.IntRange(1, 5).Draw(rt, "phaseB"), c25EditKinds) && one("commit") && one("checkout") &&
-		run(rapid.IntRange(0, 4).Draw(rt, "phaseC"), c25EditKinds) && one("commit") &&
+	raws := func(stmts []string) bool {
+		for _, q := range stmts {
+			c.rawStmt = q
+			if !one("raw") {
+				return false
+			}
+		}
+		return true
+	}
+	var onBranch, onMain []string
+	ok := run(rapid.IntRange(1, 5).Draw(rt, "phaseA"), c25EditKinds) && one("commit") && one("branch")
+	if ok {
+		// edits of the same rows on both sides: every kind of data conflict the merge can leave
+		onBranch, onMain = c.conflictPlan("cf")
+	}
+	ok = ok && raws(onBranch) &&
+		run(rapid.IntRange(0, 4).Draw(rt, "phaseB"), c25EditKinds) && one("commit") && one("checkout") &&
+		raws(onMain) &&
+		run(rapid.IntRange(0, 3).Draw(rt, "phaseC"), c25EditKinds) && one("commit") &&
 		one(rapid.SampledFrom([]string{"merge", "merge", "cherrypick"}).Draw(rt, "join")) &&
 		run(rapid.IntRange(2, 10).Draw(rt, "phaseD"), mixed)
 	_ = ok
@@ -1279,6 +1365,138 @@ func c25Pinned(t *testing.T, srv *vsql.Server, admin *vsql.Session) string {
 	return ""
 }
 
+// conflictPlan draws 0-3 pairs of statements (one for the branch, one for main) that touch the
+// same row of the committed base differently: modify/modify (same column, different values),
+// add/add (same new key, different values), delete/modify and modify/delete, preferring indexed
+// columns. Keyless tables get divergent changes of one row's multiplicity instead.
+func (c *c25State) conflictPlan(label string) (onBranch, onMain []string) {
+	rt := c.rt
+	n := rapid.SampledFrom([]int{0, 1, 1, 2, 2, 3}).Draw(rt, label+".n")
+	if n == 0 || c.sch == nil {
+		return
+	}
+	rows := sxSortRows(c.lastRows)
+	var nonPK, indexedNonPK []*sxCol
+	for i := range c.sch.Cols {
+		col := &c.sch.Cols[i]
+		if c.sch.isPK(col.Name) {
+			continue
+		}
+		nonPK = append(nonPK, col)
+		if c.sch.indexed(col.Name) {
+			indexedNonPK = append(indexedNonPK, col)
+		}
+	}
+	if len(nonPK) == 0 {
+		return
+	}
+	pickCol := func(lb string) *sxCol {
+		if len(indexedNonPK) > 0 && rapid.IntRange(0, 4).Draw(rt, lb+".indexed") != 0 {
+			return indexedNonPK[rapid.IntRange(0, len(indexedNonPK)-1).Draw(rt, lb+".icol")]
+		}
+		return nonPK[rapid.IntRange(0, len(nonPK)-1).Draw(rt, lb+".col")]
+	}
+	twoVals := func(col *sxCol, cur, lb string) (string, string) {
+		a := c.genVal(col, lb+".a")
+		b := c.genVal(col, lb+".b")
+		for k := 0; k < 6 && (a == b || a == cur || b == cur); k++ {
+			if col.IsInt {
+				a, b = fmt.Sprint(20+k), fmt.Sprint(40+k)
+			} else {
+				a, b = fmt.Sprintf("m%d", k), fmt.Sprintf("n%d", k)
+			}
+		}
+		return a, b
+	}
+	keyless := len(c.sch.PK) == 0
+	used := map[int]bool{}
+	for j := 0; j < n; j++ {
+		lb := fmt.Sprintf("%s.%d", label, j)
+		kind := rapid.SampledFrom([]string{"modmod", "addadd", "delmod", "delmod", "moddel", "moddel"}).Draw(rt, lb+".kind")
+		if keyless {
+			// a row of the base gets copies added on one side and removed/added on the other
+			if len(rows) == 0 {
+				continue
+			}
+			ri := rapid.IntRange(0, len(rows)-1).Draw(rt, lb+".row")
+			if used[ri] {
+				continue
+			}
+			used[ri] = true
+			var conds []string
+			for i, col := range c.sch.Cols {
+				if rows[ri][i] == vsql.Null {
+					conds = append(conds, "`"+col.Name+"` IS NULL")
+				} else if len(rows[ri][i]) <= 64 {
+					conds = append(conds, "`"+col.Name+"` = "+sxLit(rows[ri][i], col.IsInt))
+				}
+			}
+			ins := "INSERT INTO t VALUES " + c.rowLit(rows[ri])
+			del := "DELETE FROM t WHERE " + strings.Join(conds, " AND ")
+			switch kind {
+			case "modmod", "addadd":
+				onBranch = append(onBranch, ins)
+				onMain = append(onMain, ins+","+c.rowLit(rows[ri]))
+			case "delmod":
+				onBranch = append(onBranch, del)
+				onMain = append(onMain, ins)
+			default:
+				onBranch = append(onBranch, ins)
+				onMain = append(onMain, del)
+			}
+			continue
+		}
+		if kind == "addadd" {
+			r1 := c.genRow(lb + ".r1")
+			r2 := append([]string(nil), r1...)
+			pki := c.sch.colIdx(c.sch.PK[0])
+			if !c.sch.Cols[pki].IsInt {
+				continue
+			}
+			r1[pki] = fmt.Sprint(12 + j)
+			r2[pki] = r1[pki]
+			col := pickCol(lb)
+			ci := c.sch.colIdx(col.Name)
+			r1[ci], r2[ci] = twoVals(col, "", lb)
+			onBranch = append(onBranch, "INSERT INTO t VALUES "+c.rowLit(r1))
+			onMain = append(onMain, "INSERT INTO t VALUES "+c.rowLit(r2))
+			continue
+		}
+		if len(rows) == 0 {
+			continue
+		}
+		ri := rapid.IntRange(0, len(rows)-1).Draw(rt, lb+".row")
+		if used[ri] {
+			continue
+		}
+		used[ri] = true
+		var conds []string
+		for _, pk := range c.sch.PK {
+			i := c.sch.colIdx(pk)
+			conds = append(conds, "`"+pk+"` = "+sxLit(rows[ri][i], c.sch.Cols[i].IsInt))
+		}
+		where := strings.Join(conds, " AND ")
+		col := pickCol(lb)
+		v1, v2 := twoVals(col, rows[ri][c.sch.colIdx(col.Name)], lb)
+		upd := func(v string) string {
+			return fmt.Sprintf("UPDATE t SET `%s` = %s WHERE %s", col.Name, sxLit(v, col.IsInt), where)
+		}
+		del := "DELETE FROM t WHERE " + where
+		switch kind {
+		case "modmod":
+			onBranch = append(onBranch, upd(v1))
+			onMain = append(onMain, upd(v2))
+		case "delmod":
+			onBranch = append(onBranch, del)
+			onMain = append(onMain, upd(v2))
+		default:
+			onBranch = append(onBranch, upd(v1))
+			onMain = append(onMain, del)
+		}
+	}
+	return
+}
+
 // c25PinnedODKU is the reproduction of finding C25-keyless-odku-partial-index-writes.
 func c25PinnedODKU(t *testing.T, srv *vsql.Server, admin *vsql.Session) string {
 	db := srv.NewDBName()
@@ -1305,6 +1523,37 @@ func c25PinnedODKU(t *testing.T, srv *vsql.Server, admin *vsql.Session) string {
 	}
 	if len(bad) > 0 {
 		return "keyless table (a,b,c) with UNIQUE (b) and three more indexes, row (1,1,1), then INSERT (i,1,i) ON DUPLICATE KEY UPDATE c = 9 for i = 3..8: table holds one row (1,1,9) but stored indexes hold " + strings.Join(bad, " ")
+	}
+	return ""
+}
+
+// c25PinnedPKArtifacts is the reproduction of finding C25-pk-change-with-artifacts-panic.
+func c25PinnedPKArtifacts(t *testing.T, srv *vsql.Server, admin *vsql.Session) string {
+	db := srv.NewDBName()
+	admin.MustExec(t, "CREATE DATABASE "+db)
+	defer admin.Exec("DROP DATABASE " + db)
+	s := srv.Session(t, "pin", db)
+	defer func() { s.Close() }()
+	for _, q := range []string{
+		"CREATE TABLE t (pk INT PRIMARY KEY, u INT, UNIQUE KEY uu (u))",
+		"INSERT INTO t VALUES (1,1)",
+		"CALL dolt_commit('-Am','base')",
+		"CALL dolt_branch('b')",
+		"INSERT INTO t VALUES (2,5)",
+		"CALL dolt_commit('-Am','main')",
+		"CALL dolt_checkout('b')",
+		"INSERT INTO t VALUES (3,5)",
+		"CALL dolt_commit('-Am','b')",
+		"CALL dolt_checkout('main')",
+		"SET @@dolt_force_transaction_commit = 1",
+		"CALL dolt_merge('b')",
+		"DELETE FROM t WHERE pk = 3",
+	} {
+		s.MustExec(t, q)
+	}
+	err := s.Exec("ALTER TABLE t DROP PRIMARY KEY")
+	if err != nil && vsql.ErrCode(err) == 0 {
+		return fmt.Sprintf("table with 2 listed unique-index violations (one row since deleted): ALTER TABLE t DROP PRIMARY KEY drops the client connection (%v); server log: index out of range in prolly.multiArtifactTypeItr.Next", err)
 	}
 	return ""
 }
@@ -1375,6 +1624,7 @@ func TestVerif_C25(t *testing.T) {
 		"while finding "+c25FindingODKU+" is listed open, keyless tables with a unique index get no INSERT … ON DUPLICATE KEY UPDATE and no REPLACE (plain INSERT instead; counted as excluded_known)",
 		"a connection dropped by the server during a program statement fails the case (it means a panic in the statement handler)",
 		"while finding "+c25FindingUniqNull+" is listed open, after a merge/cherry-pick/revert/stash-pop statement a UNIQUE index may miss entries whose indexed columns contain NULL (and only those; nothing extra): such mismatches are skipped and counted as excluded_known",
+		"while finding "+c25FindingPKArtifacts+" is listed open, DROP/ADD PRIMARY KEY is not issued while the table has conflict or constraint-violation artifacts (counted as excluded_known)",
 		"while finding "+c25FindingPrefix+" is listed open, point lookups constraining a non-binary-collated column that is a prefix-length part of some index are skipped when the probe or the column holds multi-byte characters (counted as excluded_known); full-range index scans and the stored-map comparison stay active")
 	defer rec.Write(t)
 	srv, stop := sxStart(t, "c25")
@@ -1424,5 +1674,16 @@ func TestVerif_C25(t *testing.T) {
 			t.Errorf("%s", msg)
 		}
 	})
-	vh.Check(t, "programs", 110, 350, func(rt *rapid.T) { c25Case(rt, srv, admin, rec, open, openPfx, openODKU, openUN) })
+	openPKA := vh.OpenFinding("C25", c25FindingPKArtifacts)
+	t.Run("pinned_pk_change_with_artifacts", func(t *testing.T) {
+		if msg := c25PinnedPKArtifacts(t, srv, admin); msg != "" {
+			if openPKA {
+				vh.ReportKnown("C25", c25FindingPKArtifacts, msg)
+				return
+			}
+			vh.NoteViolation(t.Name(), "", `{"sql":"see c25PinnedPKArtifacts","observed":"`+strings.ReplaceAll(msg, `"`, `'`)+`"}`)
+			t.Errorf("%s", msg)
+		}
+	})
+	vh.Check(t, "programs", 110, 350, func(rt *rapid.T) { c25Case(rt, srv, admin, rec, open, openPfx, openODKU, openUN, openPKA) })
 }
